@@ -108,14 +108,20 @@ def offsets(pkts):
 
 
 # ---------------------------------------------------------------- ALPIDE encoder (independent of the model)
-def alp_chip(R, cid, bc, nhits, empty=False, flags=None):
+ADV_HIT = [0x00, 0x00, 0x00, 0xB5, 0xBC, 0xB0, 0xA3, 0xE4, 0xF0, 0xF1, 0xFF, 0xC7]      # hit bytes that look like control words
+
+
+def alp_chip(R, cid, bc, nhits, empty=False, flags=None, adv=False):
+    """`adv`: the free bytes of the hits (pixel address, hit map) are drawn from values that look like ALPIDE control words or
+    padding — legal hit content, and what a decoder or a storage layer that looks at bytes out of context trips over"""
     if empty: return bytes([0xE0 | cid, bc])
     b = bytearray([0xA0 | cid, bc])
     for r in range(R.randint(0, 6)):
         b.append(0xC0 | R.randint(0, 31))
         for h in range(R.randint(0, nhits)):
-            if R.random() < 0.5: b += bytes([0x40 | R.randint(0, 0x3F), R.randint(0, 255)])
-            else: b += bytes([R.randint(0, 0x3F), R.randint(0, 255), R.randint(0, 0x7F)])
+            addr = R.choice(ADV_HIT) if adv else R.randint(0, 255)
+            if R.random() < 0.5: b += bytes([0x40 | R.randint(0, 0x3F), addr])
+            else: b += bytes([R.randint(0, 0x3F), addr, R.choice([0x00, 0x00, 0x7F, 0x20]) if adv else R.randint(0, 0x7F)])
     b.append(0xB0 | (R.choice([0, 0, 0, 1, 2, 4, 8, 12, 14, 3, 5, 7]) if flags is None else flags))
     if R.random() < 0.2: b.append(R.choice([0xF0, 0xF1]))
     return bytes(b)
